@@ -134,8 +134,12 @@ func constructs(tier string) []construct {
 	depths := []int{4, 10, 14, 16}
 	if tier == "thorough" {
 		// a build that does not finish counts as a hang after 40 s and is then
-		// re-run three times: kept out of the quick tier
-		depths = append(depths, 20, 24, 28)
+		// re-run three times: kept out of the quick tier. Only depths that are
+		// clearly on one side of that threshold on a loaded machine are used
+		// (18: seconds; 40: 2^40 paths, never finishes): depths 20-28 take 10 s
+		// to minutes, hang in a busy worker but not when re-run alone, and made
+		// the check exit 2 ("flaky").
+		depths = append(depths, 18, 40)
 	}
 	for _, n := range depths {
 		var b strings.Builder
@@ -169,9 +173,8 @@ func constructs(tier string) []construct {
 		cs = append(cs, tmpl("deep-nesting", "{{ "+strings.Repeat("(", n)+"1"+strings.Repeat(")", n)+" }}"))
 	}
 	huge := []string{"1e100000 * 1e100000", "1 << 100000 >> 99990", "1e1000000 / 3", "1e1000000 / 1e999999", "0x1p2000 / 0x1p1990", "1e-1000000 * 1e1000000", "1 % 1e1000"}
-	if tier == "thorough" {
-		huge = append(huge, "1e600000000 >> 2", "1e600000000 << 2", "-1e600000000", "1e600000000 == 1e600000000")
-	}
+	// constants like 1e600000000 >> 2 take tens of seconds: too close to the hang
+	// threshold to give the same verdict on a busy and on an idle machine; left out
 	for _, c := range huge {
 		cs = append(cs, prog("huge-constant", "const x = "+c+"\n\nfunc main() {}\n"))
 		cs = append(cs, tmpl("huge-constant", "{% const x = "+c+" %}"))
